@@ -6,7 +6,7 @@ import lib
 PROP = "C13"
 LEVEL = "translation_validation"
 THEOREM_FILE = "properties/C13.v"
-CASE_DEPS = ["theories/Checks.v"]
+CASE_DEPS = ["theories/Checks.v", "theories/QrefModel.v"]
 RULE = ("stream hier-qref: seeded random hierarchies with repetitions of every sequence kind (symbolic and numeric fields), deep "
         "parameter links, through ports; the real code (a) imports the document as a Routine, exports it, reloads the export through "
         "the pydantic schema and imports it again; (b) compiles, exports the CompiledRoutine, reloads and re-imports it; (c) "
@@ -26,8 +26,15 @@ def gen_cases(rng, n, max_depth):
     return out
 
 
+def wiring_to_coq(w):
+    cs = E.coq_list([f"({E.coq_string(a)}, {E.coq_string(b)})" for a, b in w["connections"]])
+    ls = E.coq_list([f"({E.coq_string(src)}, {E.coq_list([E.coq_string(t) for t in ts])})" for src, ts in w["links"]])
+    ks = E.coq_list([wiring_to_coq(c) for c in w["children"]])
+    return f"(W {E.coq_string(w['name'])} {cs} {ls} {ks})"
+
+
 def emit(pairs):
-    lines = [lib.CASE_HEADER.format(imports="RepModel Routine Compile CompileTop Checks", gen_imports="")]
+    lines = [lib.CASE_HEADER.format(imports="RepModel Routine Compile CompileTop Checks QrefModel", gen_imports="")]
     items = []
     for k, (case, imp) in enumerate(pairs):
         if "uncompiled" not in imp:
@@ -41,6 +48,13 @@ def emit(pairs):
                 names |= H.tree_input_params(imp[st]["a"]) | H.tree_input_params(imp[st]["b"])
         pts = H.points_to_coq(H.make_points(lib.Rng(f"pts-{lib.case_hash(case)}"), names, 3))
         u = imp["uncompiled"]
+        tie = "[]"
+        if u.get("ok") and "wiring" in u:
+            # tie: the wiring strings of the real exported document are exactly those of the model's export of the SOURCE
+            # routine (QrefModel.to_q), and the model's import (dec_conn / dec_link) reads every one of them
+            lines.append(f"Definition src{k} : routine := {H.routine_to_coq(case['routine'])}.")
+            lines.append(f"Definition w{k} : wiring := {wiring_to_coq(u['wiring'])}.")
+            tie = f"check_wiring src{k} w{k}"
         if u.get("ok"):
             lines.append(f"Definition ua{k} : routine := {H.routine_to_coq(u['a'])}.")
             lines.append(f"Definition ub{k} : routine := {H.routine_to_coq(u['b'])}.")
@@ -61,7 +75,7 @@ def emit(pairs):
             spec.append(f"check_ctree_pair {inex} {pts} ra{k} rb{k}")
         elif rc.get("exc") != "skipped":
             spec.append("[1%nat]")
-        items.append("([], (" + " ++ ".join(spec) + ")%list)")
+        items.append("(" + tie + ", (" + " ++ ".join(spec) + ")%list)")
     lines.append("Definition results : list (list nat * list nat) :=\n " + E.coq_list(items) + ".\n")
     lines.append("Eval vm_compute in results.\n")
     return "\n".join(lines)
